@@ -106,7 +106,9 @@ class Ref:
             return self.binop(ins[1], reg(ins[2]), reg(ins[3]))
         if op == "un":
             return self.unop(ins[1], reg(ins[2]))
-        if op == "ite":
+        if op in ("ite", "fsel"):
+            # `fsel`: selection between the results of two branch FUNCTIONS (or a function and a value); the register of the branch
+            # that was not taken is unspecified (it was computed in a dead region), the one taken is the result
             c, t, f = reg(ins[1]), reg(ins[2]), reg(ins[3])
             cv = R[c]
             if cv[0] != "I" or cv[1] not in (0, 1) or K[c] not in ("B", "I"):
@@ -336,12 +338,20 @@ class Ref:
         on again the reference is plain Python again"""
         dead = []
         ign = False
+        intry = 0
         for ins in instrs:
             if ins and ins[0] == "set" and len(ins) == 3 and ins[1] == "ign":
                 ign = ins[2] != "0"
                 self.regs.append(("N",)); self.kinds.append("N")
                 continue
-            if ins and ins[0] == "genter":
+            if ins and ins[0] in ("tbegin", "tend"):
+                # `try: ... except Exception: pass`: what the block computes before something in it raises is not specified
+                # (registers of instructions that did not complete are None); everything after the block is plain Python again
+                intry += 1 if ins[0] == "tbegin" else -1
+                self.regs.append(("N",)); self.kinds.append("N")
+                continue
+            if ins and ins[0] in ("genter", "fthen", "felse"):
+                # fthen c / felse ~c: the body of a branch function of `if_then_else(c, f, g)`, a region guarded by c / by ~c
                 try:
                     c = self.regs[int(ins[1][1:])]
                     dead.append(not (c[0] == "I" and c[1] == 1))
@@ -349,11 +359,11 @@ class Ref:
                     dead.append(True)
                 self.regs.append(("N",)); self.kinds.append("N")
                 continue
-            if ins and ins[0] == "gleave":
+            if ins and ins[0] in ("gleave", "fmid", "fleave"):
                 if dead: dead.pop()
                 self.regs.append(("N",)); self.kinds.append("N")
                 continue
-            if any(dead) or ign:
+            if any(dead) or ign or intry > 0:
                 self.regs.append(UNK); self.kinds.append("?")
                 continue
             try:
